@@ -93,26 +93,44 @@ def rvalue_places(rv):
     return []
 
 
-def origins(body, x, through_calls=True, max_nodes=4000, stop_at_call=None):
-    """x: operand or place. Returns frozenset of atoms (see module doc)."""
+TRANSPARENT = ("::deref", "::deref_mut", "::as_ref", "::as_mut", "::borrow", "::borrow_mut", "::clone",
+               "::to_owned", "::copied", "::cloned", "::unwrap", "::expect", "::into_inner", "::as_deref",
+               "::unwrap_or_default", "::new_unchecked", "::into_future", "::get_mut", "::as_slice", "::to_vec")
+
+_SUMMARY_CACHE = {}
+
+
+def _place_path(pl):
+    return tuple(e[3] for e in pl[1] if isinstance(e, list) and e[0] == "f")
+
+
+def origins(body, x, through_calls=True, max_nodes=6000, stop_at_call=None, prog=None, path=(), _depth=0, at=None):
+    """x: operand or place; `path`: extra field path below x. Returns frozenset of atoms (module doc).
+
+    Field-sensitive for access paths through aggregates, copies, references, transparent calls
+    (deref/clone/unwrap/...) and - when `prog` is given - through workspace callees (the callee's
+    return value is traced with the remaining path; its parameters map back to the arguments)."""
     D = get_defs(body)
     atoms = set()
     seen = set()
     work = []
+    from .cfg import cfg as _cfg
+    G = _cfg(body) if at is not None else None
+    pos = [at]   # position (bb, stmt index) of the use being traced; None = flow-insensitive
 
-    def push_place(pl):
+    def push_place(pl, extra=()):
         for (owner, name) in F.place_fields(pl):
             if owner == body.key:
                 atoms.add(("upvar", name))
             atoms.add(("field", owner, name))
         for e in pl[1]:
             if isinstance(e, list) and e[0] == "i":
-                work.append(e[1])
-        work.append(pl[0])
+                work.append((e[1], (), pos[0]))
+        work.append((pl[0], _place_path(pl) + tuple(extra), pos[0]))
 
-    def push_op(op):
+    def push_op(op, extra=()):
         if op[0] in ("cp", "mv"):
-            push_place(op[1])
+            push_place(op[1], extra)
         elif op[0] == "c":
             c = op[2]
             if isinstance(c, dict):
@@ -129,57 +147,143 @@ def origins(body, x, through_calls=True, max_nodes=4000, stop_at_call=None):
                     atoms.add(("fnitem", c.get("res") or c["fn"]))
 
     if isinstance(x, list) and x and x[0] in ("cp", "mv", "c", "rt"):
-        push_op(x)
+        push_op(x, path)
     else:
-        push_place(x)
+        push_place(x, path)
+    if 1:
+        pass
     n = 0
     while work:
-        l = work.pop()
-        if l in seen:
+        item = work.pop()
+        if item in seen:
             continue
-        seen.add(l)
+        seen.add(item)
+        l, pth, upos = item
         n += 1
         if n > max_nodes:
             atoms.add(("truncated",))
             break
         ds = D.of(l)
         if 1 <= l <= body.argc:
-            atoms.add(("param", l, body.local_name(l)))
+            atoms.add(("param", l, body.local_name(l)) + ((pth,) if pth else ()))
         if not ds and not (1 <= l <= body.argc):
             atoms.add(("local", l))
         for d in ds:
             kind = d[0]
+            if upos is not None:
+                # reaching-definition filter: the definition must be able to flow to the use
+                dbb = d[1]
+                didx = d[2] if d[2] is not None else len(body.blocks[dbb]["s"])
+                if not (dbb in G.reach_plus(dbb) and upos[0] in G.reach_plus(dbb) or upos[0] in G.reach_plus(dbb) or (dbb == upos[0] and didx < upos[1])):
+                    continue
+                pos[0] = (dbb, didx)
             if kind == "assign":
+                dpath = _place_path(d[3])
+                if dpath[:len(pth)] == pth[:len(dpath)]:
+                    rem = pth[len(dpath):]
+                else:
+                    continue  # writes a disjoint field
                 rv = d[4]
-                if rv[0] == "bin":
+                k = rv[0]
+                if k == "use":
+                    push_op(rv[1], rem)
+                elif k == "ref" or k == "rawptr":
+                    push_place(rv[2] if k == "ref" else rv[1], rem)
+                elif k == "agg":
+                    kk = rv[1]
+                    names = None
+                    if kk["k"] == "adt":
+                        atoms.add(("agg", kk["d"], kk["v"]))
+                        names = kk["fields"]
+                    elif kk["k"] in ("closure", "coroutine"):
+                        atoms.add(("agg", kk["d"], kk["k"]))
+                    elif kk["k"] == "tuple":
+                        names = [str(i) for i in range(len(rv[2]))]
+                    if rem and names and rem[0] in names and len(names) == len(rv[2]):
+                        push_op(rv[2][names.index(rem[0])], rem[1:])
+                    else:
+                        for o in rv[2]:
+                            push_op(o)
+                elif k == "bin":
                     atoms.add(("op", rv[1]))
-                elif rv[0] == "un":
+                    push_op(rv[2])
+                    push_op(rv[3])
+                elif k == "un":
                     atoms.add(("op", rv[1]))
-                elif rv[0] == "cast":
+                    push_op(rv[2])
+                elif k == "cast":
                     atoms.add(("cast", rv[1]))
-                elif rv[0] == "agg":
-                    k = rv[1]
-                    if k["k"] == "adt":
-                        atoms.add(("agg", k["d"], k["v"]))
-                    elif k["k"] in ("closure", "coroutine"):
-                        atoms.add(("agg", k["d"], k["k"]))
-                for o in rvalue_operands(rv):
-                    push_op(o)
-                for p in rvalue_places(rv):
-                    push_place(p)
+                    push_op(rv[2], rem if rv[1].startswith("PointerCoercion") else ())
+                elif k == "discr":
+                    atoms.add(("op", "discr"))
+                    push_place(rv[1])
+                elif k == "repeat":
+                    push_op(rv[1])
+            elif kind == "setdiscr":
+                pass
             elif kind in ("call", "mutarg"):
                 t = d[4]
                 ck = F.callee_key(t)
+                dpath = _place_path(d[3])
+                if dpath[:len(pth)] == pth[:len(dpath)]:
+                    rem = pth[len(dpath):]
+                else:
+                    continue
                 atoms.add(("call", ck, d[1]))
                 if stop_at_call and ck and any(ck.endswith(s) for s in stop_at_call):
                     continue
-                if through_calls:
-                    c0 = t[1]
-                    if c0[0] in ("cp", "mv"):
-                        push_op(c0)
-                    for a in F.call_args(t):
+                if not through_calls:
+                    continue
+                args = F.call_args(t)
+                c0 = t[1]
+                if c0[0] in ("cp", "mv"):
+                    push_op(c0)
+                if kind == "call" and ck and args and any(ck.endswith(s) for s in TRANSPARENT):
+                    push_op(args[0], rem)
+                    for a in args[1:]:
                         push_op(a)
+                    continue
+                if kind == "call" and prog is not None and ck in prog.bodies and _depth < 3 and prog.bodies[ck].kind in ("fn", "method"):
+                    cb = prog.bodies[ck]
+                    if cb.trait_method and cb.trait_method.startswith("core::convert::") and args:
+                        # conversions: the result is a function of the argument even when the data flow
+                        # inside is a `match` (control dependence only)
+                        push_op(args[0])
+                    key = (ck, rem)
+                    if key not in _SUMMARY_CACHE:
+                        _SUMMARY_CACHE[key] = None  # recursion guard
+                        _SUMMARY_CACHE[key] = return_origins(cb, prog=prog, path=rem, _depth=_depth + 1)
+                    summ = _SUMMARY_CACHE[key]
+                    if summ is not None and ("truncated",) not in summ:
+                        used = False
+                        for a in summ:
+                            if a[0] == "param":
+                                used = True
+                                if a[1] - 1 < len(args):
+                                    push_op(args[a[1] - 1], a[3] if len(a) > 3 else ())
+                            elif a[0] in ("field", "const", "named", "op", "cast", "agg"):
+                                atoms.add(a)
+                            elif a[0] == "call":
+                                atoms.add(("call", a[1], -1))
+                        continue
+                for a in args:
+                    push_op(a)
     return frozenset(atoms)
+
+
+def return_origins(body, prog=None, path=(), _depth=0):
+    """Origins of the value returned by `body` (flow-sensitive: traced from each return block)."""
+    from .cfg import cfg as _cfg
+    out = set()
+    for r in _cfg(body).returns:
+        out |= origins(body, [0, []], prog=prog, path=path, _depth=_depth, at=(r, len(body.blocks[r]["s"])))
+    return frozenset(out)
+
+
+def arg_origins(body, bb, i, **kw):
+    """Origins of argument i of the call terminating bb, flow-sensitive at that call."""
+    t = body.term(bb)
+    return origins(body, F.call_args(t)[i], at=(bb, len(body.blocks[bb]["s"])), **kw)
 
 
 def has_field(atoms, owner_suffix, name):
